@@ -82,3 +82,26 @@ void h_array_copy_ctor(void)
   if (in_b.m_ptr) free(in_b.m_ptr);
   VERIF_REACH();
 }
+
+void h_array_default_ctor(void) { ARRAY_OWN_T in_a; in_a.m_size = nondet_u64(); in_a.m_ptr = (OUT_VEC_T *)nondet_size_t(); array_default_ctor(&in_a); VERIF_REACH(); }
+void h_array_size_ctor(void)
+{
+  ARRAY_OWN_T in_a; in_a.m_size = nondet_u64(); in_a.m_ptr = 0;
+  size_t in_n = nondet_size_t();
+  verif_ghost_K = nondet_size_t(); verif_ghost_J = nondet_unsigned();
+  array_size_ctor(&in_a, in_n);
+  if (in_a.m_ptr) free(in_a.m_ptr);
+  VERIF_REACH();
+}
+void h_array_adopt_ctor(void)
+{
+  ARRAY_OWN_T in_a; in_a.m_size = nondet_u64(); in_a.m_ptr = 0;
+  size_t in_n = nondet_size_t();
+  __CPROVER_assume(in_n <= ARRAY_OWN_MAX);
+  OUT_VEC_T *in_p = (OUT_VEC_T *)malloc(in_n * sizeof(OUT_VEC_T));
+  verif_old_o_ptr = in_p;
+  array_adopt_ctor(&in_a, in_n, &in_p);
+  __CPROVER_assert(in_p == 0, "the moved-from unique_ptr is empty");
+  if (in_a.m_ptr) free(in_a.m_ptr);
+  VERIF_REACH();
+}
